@@ -1,74 +1,69 @@
 --------------------------- MODULE TransportTrace ---------------------------
-(* Batch validation of socket-call traces of ONE endpoint against           *)
-(* Transport.tla (reader) plus the writer discipline.  Events:              *)
-(*   CFG     {bodies: [...], outcomeEq, wireEq, dataEq}  incoming record     *)
-(*           body lengths; differential verdicts against the unconstrained   *)
-(*           run of the same scenario (computed by the harness)              *)
+(* Batch validation of socket-call traces of ONE endpoint (C14).            *)
+(* The design of the reader (header-then-body requests, read-ahead) is       *)
+(* model-checked in Transport.tla; a trace is judged only by what the        *)
+(* property demands of ANY correct I/O layer, so that a different buffering  *)
+(* policy is not an alarm:                                                   *)
+(*  - the operation outcomes, the bytes put on the wire and the data          *)
+(*    delivered equal those of the unconstrained run (CFG flags);            *)
+(*  - records are handed upward exactly as the incoming stream frames them,  *)
+(*    in order, and never before their bytes were received;                  *)
+(*  - never sends a byte it was not given, and has sent everything at END;   *)
+(*  - between two yields there is at least one socket call of the awaited    *)
+(*    kind (a generator that yields again without touching the socket would  *)
+(*    spin or hang under a select loop).                                     *)
+(* Events:                                                                   *)
+(*   CFG     {bodies: [...], outcomeEq, wireEq, dataEq}                      *)
 (*   recv    {n, k}   OS recv(n) returned k bytes; k = -1 would-block, 0 EOF *)
+(*   brecv   {n, k}   BufferedSocket.recv served k bytes (informational)     *)
 (*   rec     {len}    RecordSocket.recv handed a record upward               *)
 (*   sendrec {len}    RecordSocket.send was given len bytes (header+body)    *)
 (*   send    {n, k}   OS send(n bytes) accepted k; k = -1 would-block        *)
 (*   yield   {v}      the generator yielded v (0 = wants read, 1 = write)    *)
-EXTENDS Transport, Integers, Json, IOUtils, TLCExt
+EXTENDS Naturals, Integers, Sequences, FiniteSets, TLC, Json, IOUtils, TLCExt
 
 VARIABLES tid, l,
-          nrec,     \* "rec" events seen
+          taken,    \* bytes received from the OS socket
+          used,     \* bytes of the stream covered by the records handed upward
+          nrec,     \* records handed upward
           wq,       \* bytes given to RecordSocket.send and not yet accepted by the OS
-          wlast,    \* outcome of the last OS send: "none" | "wb" | "partial" | "full"
-          sinceY    \* socket calls since the last yield
-tvars == <<rvars, tid, l, nrec, wq, wlast, sinceY>>
+          rcalls,   \* recv calls since the last yield
+          scalls    \* send calls since the last yield
+tvars == <<tid, l, taken, used, nrec, wq, rcalls, scalls>>
 Traces == JsonDeserialize(IOEnv.TRACE_FILE)
 N == Len(Traces)
 T == Traces[tid]
 E == T[l]
+Bodies == T[1].bodies
+HDR == 5
 
 TraceInit == /\ tid \in 1..N /\ l = 2
-             /\ RInitWith(Traces[tid][1].bodies)
-             /\ nrec = 0 /\ wq = 0 /\ wlast = "none" /\ sinceY = 1
-             \* the operation's outcome, wire bytes and delivered data equal those of the unconstrained run
+             /\ taken = 0 /\ used = 0 /\ nrec = 0 /\ wq = 0 /\ rcalls = 1 /\ scalls = 1
+             \* StreamIndependence: outcome, wire bytes and delivered data equal those of the unconstrained run
              /\ Traces[tid][1].outcomeEq /\ Traces[tid][1].wireEq /\ Traces[tid][1].dataEq
 
 IsEvent(e) == l <= Len(T) /\ E.ev = e /\ l' = l + 1 /\ UNCHANGED tid
-WKeep == UNCHANGED <<nrec, wq, wlast>>
-RKeep == UNCHANGED rvars
 
-\* the network is not observed: bytes "arrive" exactly when the OS recv returns them
-ArriveFor(k) == arrived' = arrived + k
+TRecv == /\ IsEvent("recv") /\ E.k <= E.n
+         /\ taken' = taken + (IF E.k > 0 THEN E.k ELSE 0)
+         /\ rcalls' = rcalls + 1 /\ UNCHANGED <<used, nrec, wq, scalls>>
+TBrecv == IsEvent("brecv") /\ UNCHANGED <<taken, used, nrec, wq, rcalls, scalls>>
+\* NoByteLostOrDup (receive side): the next record of the stream, whole, after its bytes arrived
+TRec == /\ IsEvent("rec") /\ nrec < Len(Bodies) /\ E.len = Bodies[nrec + 1]
+        /\ used' = used + HDR + E.len /\ used' <= taken
+        /\ nrec' = nrec + 1 /\ UNCHANGED <<taken, wq, rcalls, scalls>>
+TSendRec == /\ IsEvent("sendrec") /\ wq' = wq + E.len /\ UNCHANGED <<taken, used, nrec, rcalls, scalls>>
+\* NoByteLostOrDup (send side)
+TSend == /\ IsEvent("send") /\ E.n > 0 /\ E.n <= wq /\ E.k <= E.n
+         /\ wq' = wq - (IF E.k > 0 THEN E.k ELSE 0)
+         /\ scalls' = scalls + 1 /\ UNCHANGED <<taken, used, nrec, rcalls>>
+\* no spinning: a socket call of the awaited kind happened since the previous yield
+TYield == /\ IsEvent("yield")
+          /\ IF E.v = 0 THEN rcalls > 0 ELSE scalls > 0
+          /\ rcalls' = 0 /\ scalls' = 0 /\ UNCHANGED <<taken, used, nrec, wq>>
+TEnd == /\ IsEvent("END") /\ wq = 0 /\ UNCHANGED <<taken, used, nrec, wq, rcalls, scalls>>
 
-TRecv ==
-  /\ IsEvent("recv") /\ WKeep /\ sinceY' = sinceY + 1
-  /\ IF E.k > 0
-     THEN /\ phase # "done" /\ bsbuf = 0
-          /\ E.n = Max(ReadAhead, need)              \* header-then-body requests with read-ahead
-          /\ E.k <= E.n
-          /\ LET k == Min(need, E.k) IN
-               /\ taken' = taken + E.k /\ arrived' = arrived + E.k
-               /\ bsbuf' = E.k - k
-               /\ Advance(E.k - k, need - k)
-          /\ lastWB' = FALSE /\ yields' = 0 /\ UNCHANGED <<bodies, nwb>>
-     ELSE IF E.k = -1
-     THEN /\ bsbuf = 0 /\ lastWB' = TRUE /\ yields' = 0
-          /\ UNCHANGED <<bodies, arrived, taken, bsbuf, phase, need, rec, out, nwb>>
-     ELSE /\ bsbuf = 0 /\ UNCHANGED rvars              \* EOF
-\* BufferedSocket serves later requests from its buffer without a socket call
-TServe == ServeFromBuffer /\ UNCHANGED <<tid, l, nrec, wq, wlast, sinceY>>
-TRec == /\ IsEvent("rec") /\ nrec < out /\ E.len = bodies[nrec + 1] /\ nrec' = nrec + 1
-        /\ RKeep /\ UNCHANGED <<wq, wlast, sinceY>>
-TSendRec == /\ IsEvent("sendrec") /\ wq' = wq + E.len /\ RKeep /\ UNCHANGED <<nrec, wlast, sinceY>>
-TSend == /\ IsEvent("send") /\ RKeep /\ UNCHANGED nrec /\ sinceY' = sinceY + 1
-         /\ E.n <= wq /\ E.n > 0
-         /\ IF E.k = -1 THEN wq' = wq /\ wlast' = "wb"
-            ELSE /\ E.k <= E.n /\ E.k > 0 /\ wq' = wq - E.k             \* NoByteLostOrDup on the send side
-                 /\ wlast' = IF E.k < E.n THEN "partial" ELSE "full"
-\* YieldDiscipline: 0 only directly after a would-block recv, 1 only after a would-block or partial send;
-\* and at least one socket call since the previous yield (no spinning)
-TYield == /\ IsEvent("yield") /\ sinceY > 0 /\ sinceY' = 0
-          /\ IF E.v = 0 THEN lastWB /\ lastWB' = FALSE /\ yields' = 1
-                             /\ UNCHANGED <<bodies, arrived, taken, bsbuf, phase, need, rec, out, nwb>> /\ WKeep
-             ELSE /\ wlast \in {"wb", "partial"} /\ wlast' = "none" /\ RKeep /\ UNCHANGED <<nrec, wq>>
-TEnd == /\ IsEvent("END") /\ wq = 0 /\ nrec = out /\ UNCHANGED <<rvars, nrec, wq, wlast, sinceY>>
-
-TraceNext == (TRecv \/ TServe \/ TRec \/ TSendRec \/ TSend \/ TYield \/ TEnd) /\ (NoByteLostOrDup /\ StreamIndependence)'
+TraceNext == TRecv \/ TBrecv \/ TRec \/ TSendRec \/ TSend \/ TYield \/ TEnd
 
 Mark == IF l - 1 > TLCGet(tid) THEN TLCSet(tid, l - 1) ELSE TRUE
 ASSUME \A i \in 1..N : TLCSet(i, 0)
